@@ -48,6 +48,10 @@ def templates():
         out.append(("F3", cap, [S + pre + "send 1", "drops ; dropr", "drops ; dropr"]))
         out.append(("F3", cap, [S + pre + "send 1", R + "tryrecvrt", "drops ; dropr"]))
         out.append(("F3", cap, [R + "recv", "dropr ; drops"]))
+        # a blocked sender, the last receiver going away, and another sender arriving at that moment
+        out.append(("F3", cap, [S + pre + "send 1", "drops ; dropr", S + "sendto 2 6"]))
+        out.append(("F3", cap, [S + pre + "mksend 1 1 ; poll 1 1 ; poll 1 1", "drops ; dropr", S + "send 2"]))
+        out.append(("F3", cap, [R + "recv", "dropr ; drops", R + "recvto 6"]))
         out.append(("F3", cap, [R + "recv", "close"]))
         out.append(("F3", cap, [R + "recv", S + "trysendrt 4", "dropr ; drops"]))
         out.append(("F3", cap, [S + pre + "mksend 1 1 ; poll 1 1 ; poll 1 1", "close"]))
@@ -86,6 +90,10 @@ def templates():
     out.append(("F8", "1", ["clones ; scount", "cloner ; rcount", "close ; isclosed"]))
     out.append(("F8", "1", ["cloner ; rcount ; isclosed", "close ; rcount"]))
     out.append(("F8", "0", [S + "clones ; scount", R + "recvto 5 ; scount"]))
+    # observers that combine several fields, against the operations that change them
+    out.append(("F8", "U", [S + "trysend 1 ; drops", R + "isterm ; isterm ; tryrecv ; isterm"]))
+    out.append(("F8", "1", [S + "trysend 1 ; isfull ; drops", R + "isempty ; isdisc ; isterm ; tryrecv"]))
+    out.append(("F8", "1", ["isdisc ; isfull ; isempty", "close ; isdisc"]))
     # every way of cloning a handle (same flavour, other flavour, through a conversion) against close
     for k in (1, 2, 3):
         out.append(("F8", "1", ["clones %d ; scount" % k, "cloner %d ; rcount" % k, "close ; isclosed"]))
@@ -103,7 +111,7 @@ FAMILIES = {
 KINDS = {
     "C01": {"ledger", "O"}, "C02": {"O"}, "C03": {"O", "K", "HBL"}, "C04": {"corrupt", "A", "HB", "ledger", "O"}, "C05": {"ledger", "O"},
     "C06": {"stuck", "A"}, "C07": {"A", "HB", "M", "S"}, "C08": {"O"}, "C09": {"O", "A", "stuck", "ledger"}, "C10": {"O"},
-    "C11": {"O", "stuck"}, "C12": {"O", "K"}, "C13": {"O", "A", "ledger", "stuck", "K", "deadline"}, "C14": {"O", "K", "stuck", "RT"},
+    "C11": {"O", "stuck", "K"}, "C12": {"O", "K"}, "C13": {"O", "A", "ledger", "stuck", "K", "deadline"}, "C14": {"O", "K", "stuck", "RT"},
     "C15": {"O", "A", "ledger", "stuck", "HB"}, "C16": {"O", "A", "stuck"}, "C17": {"M", "HBL", "RT"}, "C19": {"O", "K"},
 }
 
